@@ -73,8 +73,24 @@ def build_graph(case):
     scratch = _scratch_function() if case.get("scratchfn") else None
     for op in case["ops"]:
         w.do(op)
+    gpos, gtab = [0.5, 2, None, True], {1: 2.5, 2: [7, 8]}      # plain data shared BETWEEN vertices
     for i, o in enumerate(w.objs):
         if H.kind_of(o) in H.VERTEX_KINDS:
+            if case.get("shared"):
+                # containers of plain numbers that are SHARED: one list under two names of one vertex, twice inside one
+                # record, between connected vertices; a row repeated inside a matrix; the copy must hold the same contents
+                # and the same sharing
+                pos = [1.5, 2.5, float(i)]
+                if i % 2 == 0:
+                    o.position = pos
+                    o.anchor = pos
+                if i % 3 != 0:
+                    row = [3, 1, i]
+                    o.record = ("weights", row, row, {"again": row})
+                o.gpos = gpos
+                if i % 2:
+                    o.gtab = gtab
+                    o.grid = [[0] * 3] * 3
             if i % 2:
                 o.tag = i
             if i % 3 == 0:
@@ -183,6 +199,7 @@ class RoundTrip(Leg):
                 ops = [([op[0], 3] + op[2:]) if op[0] == "NV" and len(op) == 4 and rng.random() < 0.7 else op for op in ops]
             yield {"ops": ops, "u": u, "root": rng.choice(["universe", "universe", "vertex", "link", "closure"]), "main_root": main_root,
                    "closures": rng.random() < 0.3, "scratchfn": rng.random() < 0.3,
+                   "shared": rng.random() < 0.4,         # lists / dicts of plain numbers shared between attributes and between vertices
                    "lawless": rng.random() < 0.3,        # some universes have had their law set taken away (`u.laws = None`)
                    # dill's own settings, which nrpickler.dumps hands through
                    # (byref=True asks for classes by reference: not for graphs whose classes cannot be imported by name)
